@@ -75,6 +75,7 @@ type RRW struct {
 	OnWrite   func(r *migrate.Revision) error
 	WriteHook func(r *migrate.Revision, err error)
 	ReadHook  func(v string)
+	OnRead    func(v string) error // a non-nil result makes ReadRevision fail (nothing is read)
 	Writes    int
 }
 
@@ -98,6 +99,11 @@ func (w *RRW) ReadRevisions(context.Context) ([]*migrate.Revision, error) {
 }
 
 func (w *RRW) ReadRevision(_ context.Context, v string) (*migrate.Revision, error) {
+	if w.OnRead != nil {
+		if err := w.OnRead(v); err != nil {
+			return nil, err
+		}
+	}
 	if w.ReadHook != nil {
 		w.ReadHook(v)
 	}
